@@ -1,6 +1,7 @@
 """C13 - patterns denote the sequences their definitions say, compositionally."""
 
 import ast
+import re
 
 from ..loader import norm, full, walk_local, walk_local_ordered, dump_name, AnalysisError
 from .. import util as U
@@ -267,6 +268,13 @@ def rule_inval(ctx):
             for st in walk_local(f.node):
                 if isinstance(st, ast.Expr) and isinstance(st.value, (ast.Yield, ast.YieldFrom)):
                     bad.append((st, f'`{norm(st)}` drops the in-value sent by the consumer: what is embedded next keeps receiving a stale in-value'))
+            # the in-value is handed on to whatever is embedded or polled
+            if f.name == '__embed__' and inval:
+                for c in U.calls(f.node):
+                    nm = U.call_name(c) or ''
+                    if nm.split('.')[-1] == 'embed' and nm.split('.')[0] in ('stm', 'embed') and not any(isinstance(a, ast.Starred) for a in c.args):
+                        if not (len(c.args) >= 2 and isinstance(c.args[1], ast.Name) and c.args[1].id in carriers):
+                            bad.append((c, f'`{norm(c)}` embeds without passing the in-value: the embedded pattern receives None'))
             for node, why in bad:
                 ctx.ob('C13.inval', f'{f.fq}:{norm(node)[:50] if node is not f.node else "falls-off-end"}', False, f'{ci.name}.{f.name}: {why}', node, f.module)
             ctx.ob('C13.inval', f'{f.fq}:returns-inval', not bad, f'in-value carriers {sorted(c for c in carriers if c)}', f.node, f.module)
@@ -336,8 +344,72 @@ def rule_once(ctx):
     ctx.require(n >= 1, 'C13.once', 'no accumulator-yielding generator found (Pclump vanished?)')
 
 
+INDEXED = ('Pseq', 'Pser', 'Pswitch', 'Pswitch1', 'Place', 'Placep', 'Pslide', 'Prand', 'Pxrand', 'Pwrand')
+
+
+def _index_ok(idx, fnode, node):
+    """accepted forms of a computed index into the pattern's list: reduced modulo the size, drawn from [0, size), clipped
+    from 0, or guarded on both sides (`0 <= i < size`) by an enclosing test"""
+    src = norm(idx)
+    if re.search(r'% (size|len\(\w+\))\)?$', src) or re.match(r'bi\.(mod|wrap|fold)\(', src) or re.match(r'bi\.rand\(size\)$', src) \
+            or re.match(r'bi\.clip\([^,]+, 0, ', src):
+        return True
+    if isinstance(idx, ast.Name):
+        defs = [n for n in walk_local(fnode) if isinstance(n, ast.Assign) and len(n.targets) == 1 and norm(n.targets[0]) == idx.id]
+        loops = [n for n in walk_local(fnode) if isinstance(n, ast.For) and norm(n.target) == idx.id]
+        if loops and all(norm(l.iter).startswith('range(') for l in loops) and not defs:
+            return True
+        vals = [d.value for d in defs if not (isinstance(d.value, ast.Constant) and d.value.value is None)]
+        if vals and all(_index_ok(v, fnode, node) or re.match(r'bi\.choices\(ilst, ', norm(v)) for v in vals):
+            return True
+    for p in U.parent_chain(node):
+        if isinstance(p, ast.If) and U.in_body(node, p, 'body'):
+            t = norm(p.test)
+            if re.search(rf'\b0 <= {re.escape(src)} < (size|len\(\w+\))', t):
+                return True
+        if isinstance(p, ast.FunctionDef):
+            break
+    return False
+
+
+def rule_index(ctx):
+    ctx.rule('C13.index', 'a computed index into a list pattern\'s list is reduced modulo the size, drawn from [0, size) or guarded on '
+                          'both sides (a negative index silently reads from the end); the Pseq-family offset is reduced modulo the size '
+                          'before the list is rotated by slicing')
+    m = ctx.repo.module('sc3.seq.patterns.listpatterns')
+    n = 0
+    for cname in INDEXED:
+        ci = m.classes.get(cname)
+        ctx.require(ci is not None, 'C13.index', f'{cname} vanished')
+        e = ci.methods.get('__embed__')
+        if e is None:
+            continue
+        for x in walk_local(e.node):
+            if isinstance(x, ast.Subscript) and isinstance(x.ctx, ast.Load) and not isinstance(x.slice, ast.Slice) \
+                    and norm(x.value) in ('lst', 'self.lst', 'stream_lst') and not isinstance(x.slice, ast.Constant):
+                n += 1
+                ctx.ob('C13.index', f'{e.fq}:{norm(x)}', _index_ok(x.slice, e.node, x),
+                       f'{norm(x)}: the index can be negative or past the end without being wrapped or refused', x, m)
+    ps = m.classes['Pseq'].methods['__init__']
+    op = ps.params[3]
+    ok = f'self.offset = int({op}) % len(self.lst)' in full(ps.node)
+    ctx.ob('C13.index', f'{ps.fq}:offset-cyclic', ok, 'the offset is reduced modulo the list size (the rotation lst[o:] + lst[:o] is cyclic only '
+                                                      'for |o| < size; Pser indexes modulo the size)', ps.node, m)
+    # the offset is applied exactly once on the way from the constructor to the yielded items
+    rot = [x for x in walk_local(ps.node) if isinstance(x, ast.Assign) and any(U.is_self_attr(t, 'lst') for t in x.targets)]
+    pseq = m.classes['Pseq']
+    for ci in [pseq] + sorted(ctx.repo.subclasses(pseq, strict=True), key=lambda c: c.fq):
+        e = ctx.repo.resolve_method(ci, '__embed__')
+        uses = any(U.is_self_attr(x, 'offset') for x in ast.walk(e.node))
+        ctx.ob('C13.index', f'{ci.fq}:offset-applied-once', bool(rot) != uses,
+               f'{ci.name}: the constructor {"rotates" if rot else "does not rotate"} the list by the offset and __embed__ '
+               f'{"applies" if uses else "does not apply"} it {"again" if rot and uses else ""}', e.node, e.module)
+    ctx.require(n >= 8, 'C13.index', f'only {n} computed list indexes found')
+
+
 def run(ctx):
     from . import c15
+    rule_index(ctx)
     c15.rule_order(ctx, rid='C13.ops', families=[f for f in c15.FAMILIES if f[0].startswith('sc3.seq.pattern')], least=5)
     rule_once(ctx)
     rule_wf(ctx)
@@ -347,6 +419,16 @@ def run(ctx):
 
 
 MUTANTS = [
+    dict(rule='C13.index', name='Pseq rotates its list in the constructor, subclasses rotate again (seed C13-c)', file='sc3/seq/patterns/listpatterns.py',
+         old="        self.offset = int(offset) % len(self.lst)\n", new="        self.offset = int(offset) % len(self.lst)\n        if self.offset:\n            self.lst = self.lst[self.offset:] + self.lst[:self.offset]\n"),
+    dict(rule='C13.inval', name='(fix reverted) Pshuffle embeds without the in-value', file='sc3/seq/patterns/listpatterns.py',
+         old="                inval = yield from stm.embed(item, inval)\n        return inval\n\n\nclass Prand", new="                inval = yield from stm.embed(item)\n        return inval\n\n\nclass Prand"),
+    dict(rule='C13.index', name='(fix reverted) Pseq offset not reduced modulo the size', file='sc3/seq/patterns/listpatterns.py',
+         old="        self.offset = int(offset) % len(self.lst)", new="        self.offset = int(offset)"),
+    dict(rule='C13.index', name='(fix reverted) Pslide without wrap only tests the upper end', file='sc3/seq/patterns/listpatterns.py',
+         old="                        if 0 <= pos + j < size:", new="                        if pos + j < size:"),
+    dict(rule='C13.index', name='Pswitch indexes without wrapping', file='sc3/seq/patterns/listpatterns.py',
+         old="                inval = yield from stm.embed(lst[indx % size], inval)", new="                inval = yield from stm.embed(lst[indx], inval)"),
     dict(rule='C13.ops', name='Pbinop.__embed__ shortcut swaps operands for a number on the left (seed C15-b)', file='sc3/seq/pattern.py',
          old='        # NOTE: See BinaryOpXStream implementation options. Class is not\n        # defined.\n\n', new='        # NOTE: See BinaryOpXStream implementation options. Class is not\n        # defined.\n\n    def __embed__(self, inval=None):\n        if isinstance(self.b, (int, float)):\n            stream, number = stm.stream(self.a), self.b\n        elif isinstance(self.a, (int, float)):\n            stream, number = stm.stream(self.b), self.a\n        else:\n            return (yield from super().__embed__(inval))\n        try:\n            while True:\n                inval = yield self.selector(stream.next(inval), number)\n        except stm.StopStream:\n            return inval\n\n'),
     dict(rule='C13.ops', name='Pnarop.__embed__ polls only pattern arguments, constants appended last (seed C13-b)', file='sc3/seq/pattern.py',
